@@ -566,6 +566,121 @@ def _nodes_changes(before, schema):
     return bad
 
 
+# ---- pre-parsed documents kept alive across the steps of a history (seeded C14-i: the memo behind
+# Schema.get_type_from_literal is keyed by the identity of AST type nodes)
+_POOL = []          # [(text, Document)]
+
+
+def _tstr(ws, name):
+    if not ws:
+        return name
+    inner = _tstr(ws[1:], name)
+    return "[%s]" % inner if ws[0] == "L" else inner + "!"
+
+
+def make_pool(dump):
+    """documents over the source: variables of input / enum types (used as arguments of root fields
+    and unused), inline and named fragments on object / interface types"""
+    from py_gql.lang import parse
+    kinds = {t["name"]: t["kind"] for t in dump["types"]}
+    texts = []
+    root = dump["roots"][0]["name"] if dump["roots"][0] else None
+    rt = next((t for t in dump["types"] if t["name"] == root), None)
+    comp = [t["name"] for t in dump["types"] if t["kind"] in ("object", "interface")][:4]
+    n = 0
+    for f in (rt.get("fields", []) if rt else []):
+        sel = " { __typename }" if kinds.get(f["type"]["name"]) in ("object", "interface", "union") else ""
+        vs = [a for a in f["args"] if kinds.get(a["type"]["name"]) in ("input", "enum")]
+        if vs and n < 1:
+            n += 1
+            texts.append("query A%d(%s) { %s(%s)%s }" % (
+                n, ", ".join("$v_%s: %s" % (a["name"], _tstr(a["type"]["w"], a["type"]["name"])) for a in vs),
+                f["name"], ", ".join("%s: $v_%s" % (a["name"], a["name"]) for a in vs), sel))
+        if sel and not f["args"] and comp and not any(t.startswith("query C_") for t in texts):
+            texts.append("query C_%s { %s { __typename %s ...F0 } }\nfragment F0 on %s { __typename }" % (
+                f["name"], f["name"], " ".join("... on %s { __typename }" % c for c in comp), comp[0]))
+    ins = [t["name"] for t in dump["types"] if t["kind"] in ("input", "enum")][:6]
+    if ins:
+        texts.append("query B(%s) { __typename }" % ", ".join("$x%d: %s" % (i, t) for i, t in enumerate(ins)))
+    pool = []
+    for t in texts[:3]:
+        try:
+            pool.append((t, parse(t)))
+        except Exception:  # noqa
+            pass
+    return pool
+
+
+def _run_doc(schema, doc, root_name, execute=True):
+    """verdict of validate_ast and (optionally) response of graphql_blocking for one Document object"""
+    from py_gql.validation import validate_ast
+    out = {}
+    try:
+        out["validation"] = sorted(str(e) for e in validate_ast(schema, doc).errors)
+    except Exception as e:  # noqa
+        out["validation"] = "EXC %s" % type(e).__name__
+    if not execute:
+        return out
+    try:
+        res = graphql_blocking(schema, doc, root=Canned(root_name), variables={})
+        out["response"] = json.loads(json.dumps(res.response(), default=str, sort_keys=True))
+    except Exception as e:  # noqa
+        out["response"] = "EXC %s" % type(e).__name__
+    return out
+
+
+def _type_nodes(doc):
+    from py_gql.lang import ast as A
+    out = []
+
+    def sels(ss):
+        for x in (ss.selections if ss is not None else []):
+            if isinstance(x, A.InlineFragment):
+                if x.type_condition is not None:
+                    out.append(x.type_condition)
+                sels(x.selection_set)
+            elif isinstance(x, A.Field):
+                sels(x.selection_set)
+    for d in doc.definitions:
+        if isinstance(d, A.OperationDefinition):
+            for vd in d.variable_definitions or []:
+                out.append(vd.type)
+            sels(d.selection_set)
+        elif isinstance(d, A.FragmentDefinition):
+            out.append(d.type_condition)
+            sels(d.selection_set)
+    return out
+
+
+def _docs_bad(schema, root_name, metamorphic=True):
+    """(1) every type node of the pooled documents resolves to the object registered under its name in
+    this schema; (2) validating + executing a pooled Document object gives what a freshly parsed copy of
+    its text gives"""
+    from py_gql.lang import parse
+    from py_gql.exc import UnknownType
+    bad = []
+    for text, doc in _POOL:
+        for node in _type_nodes(doc):
+            try:
+                t = schema.get_type_from_literal(node)
+            except UnknownType:
+                continue
+            except Exception as e:  # noqa
+                bad.append("get_type_from_literal raised %s" % type(e).__name__)
+                continue
+            inner = _unwrapped(t)
+            if schema.types.get(inner.name) is not inner:
+                bad.append("get_type_from_literal(%s) is not the registered %s" % (node, inner.name))
+        if not metamorphic:
+            continue
+        ex = text.startswith("query A")
+        old, new = _run_doc(schema, doc, root_name, ex), _run_doc(schema, parse(text), root_name, ex)
+        if old != new:
+            bad.append("document %r: the kept Document object gives %s, a fresh parse %s"
+                       % (text[:50], str(old)[:160], str(new)[:160]))
+    return bad[:6]
+
+
 def _use(schema):
     """what using a schema does before it is cloned / transformed: coerce a variable of every input
     object type (reads InputObjectType.field_map) and read the derived maps of the other elements"""
@@ -587,6 +702,9 @@ def _use(schema):
     for n, t in list(schema.types.items()):
         if isinstance(t, (InterfaceType, UnionType)) and not n.startswith("__"):
             schema.get_possible_types(t)
+    rn = schema.query_type.name if schema.query_type is not None else "Query"
+    for _text, doc in _POOL:
+        _run_doc(schema, doc, rn)                 # validate + execute the same Document objects again
 
 
 def _derived_bad(schema):
@@ -649,6 +767,9 @@ def run_impl(case):
     dump0 = ser_store.dump_schema(source)
     probe0 = probe(source, dump0)
     sdir0 = _sdir_on_fresh_clone(source)
+    _POOL[:] = make_pool(dump0)
+    inplaced = set()
+    root_name = dump0["roots"][0]["name"] if dump0["roots"][0] else "Query"
     schemas = [source]
     snaps = {0: (_nodes_snapshot(source), probe0.get("sdl_custom"))}      # live schemas: nodes lists, custom SDL
     steps_obs = []
@@ -692,6 +813,14 @@ def run_impl(case):
                 acc, inc = _hidden_accepted(step, res)
                 so["hidden_accepted"], so["hidden_inconclusive"] = acc, inc
         so["derived_bad"] = derived[:8]
+        docs_bad = []
+        if step.get("inplace"):
+            inplaced.add(on)
+        # the metamorphic comparison only where an in-place operation may have left a stale memo
+        docs_bad += ["schema %d: %s" % (on, x) for x in _docs_bad(schemas[on], root_name, on in inplaced)]
+        if res is not None:
+            docs_bad += ["result: %s" % x for x in _docs_bad(res, root_name, False)]
+        so["docs_bad"] = docs_bad[:6]
         if res is not None and step["op"] == "clone":
             # hypothesis of C14_clone_observe_equal: Schema(...) over a schema's own types lists them in
             # the same order
@@ -895,6 +1024,9 @@ def direct_checks(case, obs):
         if so.get("derived_bad"):
             out.append(("closed: after %s a derived field_map is out of step with .fields / the registry: %s"
                         % (tag, so["derived_bad"][:4]), None))
+        if so.get("docs_bad"):
+            out.append(("closed: after %s a pre-parsed document no longer resolves its type nodes to the registered "
+                        "objects / behaves differently from a fresh parse of its text: %s" % (tag, so["docs_bad"][:3]), None))
         if so.get("hidden_accepted"):
             out.append(("removed-unreachable: after %s coerce_value still accepts the hidden input fields %s"
                         % (tag, so["hidden_accepted"][:4]), None))
@@ -1086,6 +1218,15 @@ def corpus():
     out.append(_case(W32, [dict(_NOVIS, op="vis", on=0, input_fields=[["In", "x"], ["In2", "q"]], use=True),
                            dict(_NOVIS, op="clone", on=0, use=True),
                            dict(_NOVIS, op="vis", on=2, input_fields=[["In", "y_z"]], use=True)]))
+    # seeded C14-i: the same Document objects are validated / executed before and after IN-PLACE transforms
+    # that rebuild types named in them (the memo of get_type_from_literal is keyed by node identity)
+    W32Q = W32.replace("type Query { foo: Foo, u: U, node: Node, v: V }",
+                       "type Query { foo: Foo, u: U, node: Node, v: V, find(flt: In, e: E = A): Foo }")
+    out.append(_case(W32Q, [dict(_NOVIS, op="clone", on=0, use=True),
+                            dict(_NOVIS, op="vis", on=1, input_fields=[["In", "x"]], fields=[["Foo", "other_field"]],
+                                 inplace=True, use=True),
+                            {"op": "camel", "on": 1, "inplace": True, "use": True},
+                            {"op": "sdir", "on": 1, "inplace": True, "use": True}]))
     # seeded C14-g: an explicit `= null` default (has_default_value, value None) of a field argument, an
     # input field or a directive argument must survive extend_schema -- an unrelated and a related extension
     W32N = (W32.replace("bar(a: Int = 3, snake_arg: In)", "bar(a: Int = null, snake_arg: In = null, l: [Int] = null, en: E = null)")
